@@ -47,9 +47,10 @@ var recSpace = ev.New("C18", "config-space",
 		"accepted => effective values equal the documented ones and all representations (omit/null/empty/default, legacy vs listeners, Migrate round trip) observe "+
 		"the same; a sample of accepted configs is started on loopback in a child process and driven by TCP/UDP/API smoke traffic. Non-trivial: accepted and "+
 		"exercised by traffic, or refused with exactly one injected violation. Distinct key: configuration class (+ injected violation).").
-	Require("accepted-exercised", "refused-one-violation", "viol:key-length", "viol:nat-timeout", "viol:mtu", "viol:dangling", "viol:duplicate",
+	Require("accepted-exercised", "refused-one-violation", "viol:key-length", "viol:nat-timeout", "viol:mtu", "viol:dangling", "viol:duplicate", "viol:range",
 		"legacy-form", "sibling:legacy-flip", "sibling:migrate", "sibling:omit", "sibling:empty", "sibling:default",
-		"probe:tcp-tunnel", "probe:udp-tunnel", "probe:reject", "udp-nontarget-reply-delivered", "chain", "domain-target")
+		"probe:tcp-tunnel", "probe:udp-tunnel", "probe:reject", "udp-nontarget-reply-delivered", "chain", "domain-target",
+		"probe-silent:target-speaks-first", "probe-silent:late-payload", "half-enabled-client", "half-enabled-client-routed")
 
 func TestConfigSpace(t *testing.T) {
 	startPct := envInt("VERIF_C18_START_PCT", 40)
@@ -74,10 +75,14 @@ func TestConfigSpace(t *testing.T) {
 			byKind := map[string][]mutation{}
 			var kindsAvail []string
 			for _, m := range ms {
-				if _, ok := byKind[m.kind]; !ok {
-					kindsAvail = append(kindsAvail, m.kind)
+				group := m.kind
+				if m.kind == "dangling" && strings.HasSuffix(m.label, "only") {
+					group = "dangling-half" // a client that exists, but not for the network the reference covers
 				}
-				byKind[m.kind] = append(byKind[m.kind], m)
+				if _, ok := byKind[group]; !ok {
+					kindsAvail = append(kindsAvail, group)
+				}
+				byKind[group] = append(byKind[group], m)
 			}
 			sort.Strings(kindsAvail)
 			group := byKind[kindsAvail[uniform(rt, "mutationKind", len(kindsAvail))]]
@@ -126,6 +131,17 @@ func TestConfigSpace(t *testing.T) {
 		}
 		if w.clientsMode != 0 {
 			labels = append(labels, "clients-omitted-or-empty")
+		}
+		for _, c := range w.clients {
+			if c.tcp != c.udp && len(applied) == 0 {
+				labels = append(labels, "half-enabled-client")
+				for _, s := range w.servers {
+					if s.upTCP == c.name || s.upUDP == c.name {
+						labels = append(labels, "half-enabled-client-routed")
+					}
+				}
+				break
+			}
 		}
 		if len(w.groups) > 0 {
 			labels = append(labels, "groups")
